@@ -674,7 +674,8 @@ class Budget:
 
     def note(self, results):
         with self.lock:
-            self.bad += sum(1 for r in results if not answered(r))
+            # a caught panic costs nothing (the child goes on), a dead or hanging child does
+            self.bad += sum(1 for r in results if not answered(r) and not (isinstance(r, dict) and "panic" in r))
 
     def spent(self):
         return (self.max_bad is not None and self.bad >= self.max_bad) or (self.seconds is not None and time.time() - self.t0 >= self.seconds)
